@@ -123,9 +123,13 @@ func c16AnonCase(r *mon.R, G c16ag, n, mine, l, rep int) {
 
 	var ct []byte
 	var err error
-	if !c.call("Encrypt", "honest", func() { ct, err = anon.Encrypt(suite, append([]byte(nil), msg...), mkSet()) }) {
+	msgIn, setIn := append([]byte(nil), msg...), mkSet()
+	encSnap := c16Snap().add("message", c16S(&msgIn)).add("anonymity-set", c16Ps(setIn))
+	if !c.call("Encrypt", "honest", func() { ct, err = anon.Encrypt(suite, msgIn, setIn) }) {
 		return
 	}
+	c.intact(encSnap, "Encrypt", "honest", err != nil)
+	ct = append([]byte(nil), ct...)
 	c.eval("encrypt/accepted", "enc", true)
 	if err != nil {
 		r.Violation(c.key("Encrypt", "refused-protectable-message"), "anon.Encrypt refused a message it can protect: "+err.Error(), c.det())
@@ -151,7 +155,11 @@ func c16AnonCase(r *mon.R, G c16ag, n, mine, l, rep int) {
 
 	dec := func(class string, cc []byte, idx int, k kyber.Scalar, kv ...any) (pt []byte, e error, ok bool) {
 		set := mkSet()
+		sn := c16Snap().add("ciphertext", c16S(&cc)).add("anonymity-set", c16Ps(set)).add("private-key", c16P(k))
 		ok = c.call("Decrypt", class, func() { pt, e = anon.Decrypt(suite, cc, set, idx, k) }, kv...)
+		if ok {
+			c.intact(sn, "Decrypt", class, e != nil, kv...)
+		}
 		return
 	}
 
@@ -167,11 +175,36 @@ func c16AnonCase(r *mon.R, G c16ag, n, mine, l, rep int) {
 		} else {
 			c16Mark(c.scheme)
 		}
-		if !bytes.Equal(in, ct) {
-			r.NoteAdd("anon.Decrypt overwrote the caller's ciphertext buffer (tag bytes; observation, not judged)", 1)
-		}
 	}
 	r.SampleClass(fmt.Sprintf("anon:%s:n=%d", G.name, n), map[string]any{"scheme": "anon", "group": G.name, "recipients": n, "mine": mine, "len": l, "ct_len": len(ct), "regions": fmt.Sprint(regs), "roundtrip": err == nil && bytes.Equal(pt, msg)})
+
+	// (1c) the same ciphertext buffer decrypted again (same recipient; and, n >= 2, then by another recipient),
+	// and once more after a failed wrong-key attempt
+	{
+		obj := append([]byte(nil), ct...)
+		set := mkSet()
+		wrong := suite.Scalar().Add(xs[mine], suite.Scalar().One())
+		c.repeat("Decrypt", msg, mclass == "random",
+			func() ([]byte, error) { return anon.Decrypt(suite, obj, set, mine, xs[mine]) },
+			func() ([]byte, error) { return anon.Decrypt(suite, obj, set, mine, wrong) },
+			func() []byte { return obj })
+		if n >= 2 {
+			// one buffer handed to two members of the set in turn (per-party copies of set and keys)
+			obj2 := append([]byte(nil), ct...)
+			o := (mine + 1) % n
+			var pa, pb []byte
+			var ea, eb error
+			if c.call("Decrypt", "shared-buffer/first-recipient", func() { pa, ea = anon.Decrypt(suite, obj2, mkSet(), mine, xs[mine]) }) && ea == nil && bytes.Equal(pa, msg) &&
+				c.call("Decrypt", "shared-buffer/second-recipient", func() { pb, eb = anon.Decrypt(suite, obj2, mkSet(), o, xs[o]) }) {
+				c.eval("repeat/second-recipient-same-buffer", fmt.Sprintf("o=%d", o), true)
+				if eb != nil || !bytes.Equal(pb, msg) {
+					r.Violation("C16/anon/Decrypt/repeat/second-recipient-same-buffer-fails",
+						fmt.Sprintf("anon.Decrypt: after recipient %d decrypted a ciphertext buffer, recipient %d of the same set cannot decrypt that buffer any more (err=%v)", mine, o, eb),
+						c.det("second_recipient", o, "buffer_now", c16HexCap(obj2), "returned", c16HexCap(pb)))
+				}
+			}
+		}
+	}
 
 	// (2) wrong keys
 	outsider := suite.Scalar().Pick(rng.Stream())
